@@ -84,8 +84,21 @@ def cases(ctx):
             yield Case(f'hd_new {name} {net} {root} {pline(first)}', 'ms', nontrivial=True, tag='new-x',
                        spec=lambda ans, root=root, first=first: (f's:bip32 {root} {pline(first)}', ans))
         nch = rng.choice([1, 2, 3, 5])
+        prev = None
         for k in range(nch):
             p = rpath(rng)
+            if prev is not None and prev and rng.random() < 0.5:
+                r = rng.random()
+                last = prev[-1]
+                if r < 0.4:      # the previous path is a textual prefix of the new one, ending mid-index (m/0/1 -> m/0/12)
+                    base = last - H if last >= H else last
+                    ext_i = int(str(base) + str(rng.randrange(10)))
+                    if ext_i < H: p = prev[:-1] + [ext_i + (H if rng.random() < 0.3 else 0)] + rpath(rng)[:1]
+                elif r < 0.7:    # a genuine extension
+                    p = prev + rpath(rng)[:2]
+                else:            # back up the tree / a sibling
+                    p = prev[:-1] + ([] if rng.random() < 0.5 else [rng.randrange(0, 100)])
+            prev = p
             ctx.count('path-change'); ctx.count(f'depth-{len(p)}')
             yield Case(f'hd_path {name} {net} {pline(p)}', 'ms', nontrivial=nch >= 2 or any(i >= H for i in p) or net != 'testnet', tag='path',
                        spec=lambda ans, root=root, p=p: (f's:bip32 {root} {pline(p)}', ans))
